@@ -14,6 +14,7 @@ func init() {
 	for _, f := range []string{
 		"(github.com/cosmos/cosmos-sdk/types.AccAddress).Bytes",
 		"(github.com/cosmos/cosmos-sdk/types.AccAddress).Empty",
+		"(github.com/cosmos/cosmos-sdk/types.AccAddress).Equals",
 		"github.com/cosmos/cosmos-sdk/types.Uint64ToBigEndian",
 		"github.com/cosmos/cosmos-sdk/types.BigEndianToUint64",
 		"(encoding/binary.bigEndian).PutUint64",
@@ -515,6 +516,9 @@ func (e *Exec) strSlice(parts []Str) Value {
 // libPattern: method-name based stubs (codec, proto Marshal ...).
 func (e *Exec) libPattern(fn *ssa.Function, name string, args []Value) (Value, bool) {
 	if v, ok := e.codecPattern(fn, name, args); ok {
+		return v, true
+	}
+	if v, ok := e.ibcPattern(fn, name); ok {
 		return v, true
 	}
 	if strings.HasPrefix(name, "(github.com/cometbft/cometbft/libs/log.") {
